@@ -310,6 +310,10 @@ func checkC01(c *Ctx) {
 		}
 	}, "C07/ID/monotone/mem.Store.boxes:entries-persist", "C01/STORE/entries-persist", "memory store: mailbox entries are never deleted or replaced, so a delivery that already holds an entry cannot file its (then acknowledged) message in a mailbox no reader can reach")
 	r.Floor("C01/STORE/atomic-append", "borrowed store-atomicity obligations", nB, 1)
+	// "eligible for storage" is the documented store rule (decided by C05's truth table): a
+	// predicate that consults the inactive list drops an acknowledged recipient's copy
+	nE := c.borrow(checkC05, "C05/TABLE/predicates/policy.ShouldStoreDomain", "C01/STORE/eligible", "the store decision of an accepted recipient is DefaultStore∧¬in(DiscardDomains) ∨ ¬DefaultStore∧in(StoreDomains), for every combination of the three atoms")
+	r.Floor("C01/STORE/eligible", "borrowed obligations", nE, 1)
 
 	// ---- D6
 	t := c.smtpTypestate(m)
